@@ -1128,6 +1128,26 @@ func c15r13(rc *core.RC) {
 			}
 			switch k := core.Unparen(ix.Index).(type) {
 			case *ast.Ident:
+				// a local that holds the lower-cased key
+				lowered := false
+				ast.Inspect(fd.Body, func(y ast.Node) bool {
+					as, isAs := y.(*ast.AssignStmt)
+					if !isAs || len(as.Lhs) != 1 || len(as.Rhs) != 1 || core.ObjOf(info, as.Lhs[0]) != core.ObjOf(info, k) {
+						return true
+					}
+					if c, isCall := core.Unparen(as.Rhs[0]).(*ast.CallExpr); isCall && len(c.Args) == 1 {
+						if name := core.CalleeName(info, c); name == "strings.ToLower" || name == "decoder.toASCIILower" {
+							if src := core.ObjOf(info, c.Args[0]); src != nil {
+								folded[src] = true
+								lowered = true
+							}
+						}
+					}
+					return true
+				})
+				if lowered {
+					return true
+				}
 				if o := core.ObjOf(info, k); o != nil && !rangeKeys[o] {
 					if _, isVar := o.(*types.Var); isVar && o.Parent() != o.Pkg().Scope() {
 						exact = append(exact, ix)
